@@ -276,7 +276,9 @@ def frameStep (s : DecSt) (f : FrameIn) : FrameAcc × DecSt :=
       let u := updateAccesses r.2 f.signalType pl f.ltpCoef
       let s1 := stAfterUpdate r.2 c u.2 f.signalType
       let g := cngAccesses s1 f.gains
-      let glue := if s1.lastFrameLost then rd .xq 0 c.frameLen else []                             -- PLC.c:449-452
+      -- PLC.c:449-452 energy of the frame; :476-484 the fade-in writes a data-dependent prefix of frame[ 0..length )
+      -- (listed with its upper bound; the tie checks the recorded prefix stays below `length`)
+      let glue := if s1.lastFrameLost then rd .xq 0 c.frameLen ++ wrt .xq 0 c.frameLen else []
       (⟨core.1, r.1 ++ u.1, shiftAccesses c ++ rd .pitchL (nb - 1) nb, g.1, glue, false⟩,
        { s1 with cngFs := g.2.1, cngSeed := g.2.2, lastFrameLost := false,                         -- PLC.c:488
                  lagPrev := pl.getD (s.nbSubfr - 1) 0 })                                           -- decode_frame.c:162
